@@ -80,6 +80,7 @@ fn build_base(rec: &Recorded, dir: &Path, base: &Path, stale: &Path) -> Result<(
 					}
 				}
 			},
+			Act::Nested(..) => return Err("nested schedules are not generated for log-mutation histories".into()),
 			Act::Restart => {
 				dbutil::make_drop_legal(d).map_err(|e| e.to_string())?;
 				drop(db.take());
